@@ -118,7 +118,7 @@
 /* elements [from, size ()) are copies of the entry value of *val (value watched by WP[1]) */
 #define TAIL_FILLED(s, from, val) IMPLIES (IN_RANGE (WP[0], DATA (s), SZ (s)) && OFF (WP[0]) - OFF (DATA (s)) >= ((unsigned long) (from) << ESZ_LOG2) && (val) == WP[1], WS[0] == __CPROVER_old (WS[1]))
 /* growth (C14): a changed capacity is at least the needed size and at least 1.5x the old one, saturating at max_size () */
-#define GROWTH(s, needed) IMPLIES (CAP (s) != OCAP (s), CAP (s) >= (needed) && (CAP (s) - OCAP (s) >= OCAP (s) / 2 || CAP (s) == MAXSZ))
+#define GROWTH(s, needed) IMPLIES (CAP (s) != OCAP (s), CAP (s) >= (needed) && (CAP (s) - OCAP (s) >= (OCAP (s) >> 1) || CAP (s) == MAXSZ))
 /* no reallocation (C10) */
 #define NO_REALLOC(s) (DATA (s) == ODATA (s) && CAP (s) == OCAP (s) && alloc_calls == __CPROVER_old (alloc_calls) && dealloc_calls == __CPROVER_old (dealloc_calls))
 
